@@ -112,3 +112,7 @@ pub assume_specification<T, E, U, F: FnOnce(E) -> U> [std::task::Poll::<std::opt
             Poll::Ready(None) => r matches Poll::Ready(None),
             Poll::Pending => r is Pending,
         };
+
+/// `transport.fuse()` (futures `StreamExt::fuse`): the same transport; the model above already is the fused view (A-sink)
+#[verifier::external_body]
+pub fn fuse_model<S, I>(t: Transport<S, I>) -> (r: Transport<S, I>) ensures r@ == t@ { unimplemented!() }
